@@ -128,14 +128,10 @@ void reb_simulation_step(struct reb_simulation* const r){
 #endif // MPI
     }
 
-    // Calculate accelerations. 
-    reb_calculate_acceleration(r);
-    if (r->N_var){
-        reb_calculate_acceleration_var(r);
-    }
-    // Calculate non-gravity accelerations. 
-    if (r->additional_forces) r->additional_forces(r);
-    PROFILING_STOP(PROFILING_CAT_GRAVITY)
+    // Calculate accelerations (gravity, variational equations, non-gravity accelerations).
+    // Same routine as the one synchronize and the correctors use: for MERCURIUS and TRACE it
+    // evaluates additional_forces in the inertial frame.
+    reb_simulation_update_acceleration(r);
 
     // A 'DKD'-like integrator will do the 'KD' part.
     PROFILING_START()
